@@ -380,6 +380,33 @@ pub fn c7() -> OptionParser<(bool, (bool, Option<Inner2>))> {
     construct!(v, mid).to_options()
 }
 
+#[derive(Debug, Clone, PartialEq)]
+pub enum Alt8 {
+    Seven(bool),
+    Words(Vec<u32>),
+}
+
+fn c8_seven() -> OptionParser<Alt8> {
+    let z = short('z').long("zed").switch();
+    construct!(Alt8::Seven(z)).to_options()
+}
+
+fn c8_mid() -> OptionParser<(bool, Alt8)> {
+    let m = short('m').long("mid").switch();
+    let seven = c8_seven().command("7");
+    let ws = positional::<u32>("W").many();
+    let words = construct!(Alt8::Words(ws));
+    let sub = construct!([seven, words]);
+    construct!(m, sub).to_options()
+}
+
+/// depth 2, the inner command's name is valid data for the sibling branch (repeated positional)
+pub fn c8() -> OptionParser<(bool, (bool, Alt8))> {
+    let v = short('v').long("verbose").switch();
+    let mid = c8_mid().command("mid");
+    construct!(v, mid).to_options()
+}
+
 /// switch declared before a repeated argument (the switch's consumption precedes the loop)
 pub fn g4() -> OptionParser<(bool, Vec<u32>, u32)> {
     let a = short('a').long("alpha").switch();
